@@ -732,7 +732,7 @@ func edgeWiring(c *an.Ctx, s *sched, rule string) {
 		}
 		ok := true
 		for _, ret := range an.Returns(f) {
-			lk, isLk := an.Resolve(an.RetVal(ret, 0)).(*ssa.Lookup)
+			lk, isLk := an.ContentOf(an.RetVal(ret, 0)).(*ssa.Lookup) // (a defensive copy of the list counts as the list)
 			if !isLk || an.AccessPath(lk.X).LastField() != acc.field || !an.SameValue(lk.Index, f.Params[1]) {
 				ok = false
 			}
